@@ -8,6 +8,7 @@ namespace KamalProxy
 /-- what the wrapped handler does with the ResponseWriter it is given -/
 inductive HEv
   | setCT (ct : Bytes)          -- w.Header().Set("Content-Type", ct)
+  | setCL (n : Nat)             -- w.Header().Set("Content-Length", n) (e.g. the answer to a HEAD request)
   | writeHeader (code : Nat)
   | write (data : Bytes)
   | flush
@@ -30,6 +31,7 @@ structure RespW where
   bypass        : Bool := false
   hijacked      : Bool := false
   ct            : Bytes := []
+  cl            : Option Nat := none     -- the Content-Length header the handler set; the middleware never touches it
   out           : List OEv := []
 deriving Repr
 
@@ -53,6 +55,7 @@ def RespW.send (w : RespW) : RespW × Bool :=
 
 def RespW.step (w : RespW) : HEv → RespW
   | .setCT ct => { w with ct := ct }
+  | .setCL n => { w with cl := some n }
   | .writeHeader code =>
     if 100 ≤ code ∧ code ≤ 199 then { w with out := w.out ++ [.writeHeader code] }
     else if w.headerWritten then w
@@ -76,6 +79,7 @@ structure MwResult where
   panicked : Bool          -- the panic propagates to the caller
   spills   : Nat
   removed  : Nat
+  cl       : Option Nat := none    -- Content-Length in the header map handed to the client-side writer
 deriving Repr
 
 /-- `ResponseBufferMiddleware.ServeHTTP` -/
@@ -86,13 +90,14 @@ def respMw (maxMem maxBytes : Nat) (evs : List HEv) : MwResult :=
   if panicked then
     -- the deferred Close still runs
     let b := w.buf.close
-    { out := w.out, panicked := true, spills := b.spills, removed := b.removed }
+    { out := w.out, panicked := true, spills := b.spills, removed := b.removed, cl := w.cl }
   else
     let (w', ok) := w.send
     let out := if ok then w'.out
       else w'.out ++ [.writeHeader 500, .write (asciiB "Internal Server Error\n")]
     let b := w'.buf.close
-    { out := out, panicked := false, spills := b.spills, removed := b.removed }
+    -- `http.Error` (the 500 fallback) deletes a Content-Length the handler had set
+    { out := out, panicked := false, spills := b.spills, removed := b.removed, cl := if ok then w'.cl else none }
 
 inductive ReqMwResult
   | tooLarge                    -- 413, next handler not called
